@@ -28,8 +28,10 @@ def Kind.isVarLike : Kind → Bool
   | .variable | .temporary => true
   | _ => false
 
-/-- AccessFlags of one visited object: READ, WRITE (`<<=`, `.next`, `@=`, `.value`, reset of a pushed signal) or
-    PUSH (`^=`, `.push`) -/
+/-- AccessFlags of one visited object: READ, WRITE (`<<=`, `.next`, `@=`, `.value`, reset of a pushed signal, an object
+    formatted WITHOUT `!r` inside inline VHDL - statement `f"{vhdl:..}"` or expression `f"{vhdl[T]:..}"` alike:
+    `InlineCode.visit_objects` reports `READ if node.read else WRITE`) or PUSH (`^=`, `.push`).
+    Read-formatted inline objects (`{x!r}`) are READ. -/
 inductive AccKind | read | write | push
   deriving DecidableEq, Repr
 
